@@ -114,6 +114,27 @@ func spinningEngineGoroutine(dump string) string {
 	return ""
 }
 
+// lockedEngineGoroutine looks for a goroutine that waits for a sync mutex (a wait the simulated clock cannot see
+// as blocked) with a frame in the engine's own code, and returns its frames.
+func lockedEngineGoroutine(dump string) string {
+	for _, blk := range strings.Split(dump, "\n\n") {
+		lines := strings.Split(blk, "\n")
+		if len(lines) < 2 || !(strings.Contains(lines[0], "[sync.Mutex.Lock") || strings.Contains(lines[0], "[sync.RWMutex.")) {
+			continue
+		}
+		var frames []string
+		for _, l := range lines[1:] {
+			if strings.HasPrefix(l, "github.com/quickfixgo/quickfix") && !strings.Contains(l, "verifsim") {
+				frames = append(frames, strings.TrimSpace(l))
+			}
+		}
+		if len(frames) > 0 {
+			return strings.Join(frames, " | ")
+		}
+	}
+	return ""
+}
+
 func startWatchdog() {
 	// real-time watchdog: outside any bubble, so it runs on the real clock
 	go func() {
@@ -139,6 +160,9 @@ func startWatchdog() {
 				if e := CurrentEnv.Load(); e != nil {
 					if g := spinningEngineGoroutine(string(buf[:n])); g != "" {
 						e.EngineSpins("an engine goroutine keeps running without blocking for " + strconv.Itoa(stuck*5) + " s of real time: " + g)
+					}
+					if g := lockedEngineGoroutine(string(buf[:n])); g != "" {
+						e.EngineBlockedOnLock("an engine goroutine has been waiting for an engine mutex for " + strconv.Itoa(stuck*5) + " s of real time (its holder never lets go): " + g)
 					}
 				}
 				os.Exit(3)
